@@ -8,7 +8,7 @@ cp -f /repo/go.sum go.sum.repo 2>/dev/null && cat go.sum.repo go.sum 2>/dev/null
 fail=0
 for d in checks/*/; do
   n=$(basename "$d")
-  go build -o "bin/$n" "./checks/$n" || fail=1
+  ./build.sh "$n" || fail=1
 done
 [ -x setup_extra.sh ] && ./setup_extra.sh
 exit $fail
